@@ -382,3 +382,56 @@ fn parse_http_response(
         }
     }
 }
+
+/// Verification hooks (feature `verif-hooks`, default off): drive the reassembly kernel of
+/// `TcpFlow` (segment store + `get_full_data`) without the HTTP parsers.
+#[cfg(feature = "verif-hooks")]
+impl TcpFlow {
+    /// The flow `process_tcp_packet` creates for a SYN with sequence number `isn`.
+    pub fn verif_new(
+        src_ip: IpAddr,
+        src_port: u16,
+        dst_ip: IpAddr,
+        dst_port: u16,
+        isn: u32,
+        syn_payload: &[u8],
+    ) -> TcpFlow {
+        TcpFlow::init(
+            src_ip,
+            src_port,
+            dst_ip,
+            dst_port,
+            TcpData { sequence: isn, data: Vec::from(syn_payload) },
+        )
+    }
+
+    /// Store one payload segment exactly as `process_tcp_packet` does before it parses.
+    pub fn verif_push(&mut self, is_client: bool, sequence: u32, data: &[u8]) {
+        let tcp_data = TcpData { sequence, data: Vec::from(data) };
+        if is_client {
+            self.client_data.push(tcp_data);
+        } else {
+            self.server_data.push(tcp_data);
+        }
+    }
+
+    pub fn verif_full_data(&self, is_client: bool) -> Vec<u8> {
+        self.get_full_data(is_client)
+    }
+
+    pub fn verif_segments(&self, is_client: bool) -> usize {
+        if is_client {
+            self.client_data.len()
+        } else {
+            self.server_data.len()
+        }
+    }
+
+    pub fn verif_parsed(&self, is_client: bool) -> bool {
+        if is_client {
+            self.client_http_parsed
+        } else {
+            self.server_http_parsed
+        }
+    }
+}
